@@ -7,6 +7,9 @@
     o exists <n> | o fetch <n> | o preds <n> | o tags last=<k|-> | o delete <n>
     o saveindex | o gc | o reopen | o view   (view: read-only reopen used for the next `vq` lines)
     o vq <query…>                      query against the view; spec = the original handle's answer
+    o foreign keep=<set> entries=<n:name|-:ann,...>
+                                       another tool rewrote the layout: blobs/ holds `keep`,
+                                       index.json lists the entries; opened afresh
     o layout                           raw directory validation (harness side)
     o blobs                            which universe blobs have a file
 -/
@@ -94,6 +97,10 @@ def specQuery (s : St) (toks : List String) : String :=
           | none => "err")
       | some none => "err"
       | _ => "*"
+  | ["preds", n] => match n.toNat? with
+      -- C07: exactly the stored manifests that link to n (ground-truth edges)
+      | some n => showSet (s.absContent.filter fun p => s.cfg.isMan p && (s.cfg.succ p).contains n)
+      | none => "*"
   | ["tags", l] =>
       match kv [l] "last" with
       | some l =>
@@ -249,6 +256,22 @@ def step (s : St) (toks : List String) : Option (St × String × String) :=
       let m ← query v q
       let sp ← query s.st q
       some (s, m, sp)
+  | "foreign" :: rest => do
+      let keep ← parseNats (← kv rest "keep")
+      let es ← ((← kv rest "entries").splitOn ",").mapM fun e =>
+        match e.splitOn ":" with
+        | [n, nm, a] => do
+            let n ← n.toNat?
+            let a ← a.toNat?
+            let nm ← if nm == "-" then some none else nm.toNat?.map some
+            some (n, nm, a)
+        | _ => none
+      let base : OciSt := { OciSt.empty with blobs := keep, indexFile := es }
+      let st' := { base.loadIndex c s.fuel with autoSave := s.st.autoSave, autoGC := s.st.autoGC }
+      let absT := es.foldl (fun acc e => match e.2.1 with
+        | some nm => (nm, e.1, e.2.2) :: acc.filter (·.1 != nm)
+        | none => acc) []
+      some ({ s with st := st', stray := [], absContent := keep, absTags := absT, view := none }, "ok", "ok")
   | ["layout"] => some (s, "ok", "ok")
   | ["blobs"] =>
       let present := s.univ.filter (s.st.blobs.contains ·)
